@@ -103,9 +103,43 @@ structure NodeSt.Agree (s : NodeSt) : Prop where
   inPool : ∀ sid space p, s.Reg sid space p → ∃ st, st ∈ s.pool ∧ st.sid = sid
   validReg : ∀ sid space p, s.Reg sid space p → validSpaceId space = true
 
-/-- all interest bookkeeping is gone -/
-def NodeSt.Clean (s : NodeSt) : Prop :=
-  s.remote = [] ∧ s.streams = [] ∧ ∀ st, st ∈ s.pool → st.tags = []
+/-- all interest bookkeeping is gone: no space trie, no stream record, no tag -/
+def NodeSt.cleanB (s : NodeSt) : Bool :=
+  s.remote.isEmpty && s.streams.isEmpty && s.pool.all (·.tags.isEmpty)
+
+def NodeSt.Clean (s : NodeSt) : Prop := s.cleanB = true
+
+/-- no empty record is kept: every stream record holds a pattern, every space trie holds one -/
+structure NodeSt.NoEmpty (s : NodeSt) : Prop where
+  streams : ∀ sid r, nlookup sid s.streams = some r → ∃ space p, s.Reg sid space p
+  remote : ∀ space t, alookup space s.remote = some t → ∃ p, t.count p > 0
+
+/-- one serving-side step -/
+inductive NodeOp where
+  | openStream (sid : Nat) (peer ident : String)
+  | subscribe (sid : Nat) (peer ident space : String) (topics : List String)
+  | unsubscribe (sid : Nat) (space : String) (topics : List String)
+  | publish (peer ident space topic msgIdent : String) (relayed idLenOk big : Bool)
+  | closeStream (sid : Nat)
+  | evict (space acct : String)
+  | revalidate (space : String)
+  | closeSpace (space : String)
+  | setMember (space acct : String) (v : Bool)
+
+def NodeSt.step (s : NodeSt) : NodeOp → NodeSt
+  | .openStream sid peer ident => if (s.poolStream sid).isSome then s else s.openStream sid peer ident
+  | .subscribe sid peer ident space topics => (s.handleSubscribe sid peer ident space topics).1
+  | .unsubscribe sid space topics => s.handleUnsubscribe sid space topics
+  | .publish peer ident space topic msgIdent relayed idLenOk big =>
+      (s.handlePublish peer ident space topic msgIdent relayed idLenOk big).1
+  | .closeStream sid => s.closeStream sid
+  | .evict space acct => s.evictMember space acct
+  | .revalidate space => s.revalidate space
+  | .closeSpace space => s.closeSpace space
+  | .setMember space acct v => s.setMember space acct v
+
+/-- states reached from an empty service (any caps / burst) by any operation sequence -/
+def NodeSt.run (s : NodeSt) (ops : List NodeOp) : NodeSt := ops.foldl NodeSt.step s
 
 /-- the publisher conditions of the property for a frame arriving on a stream of `peer` whose
 handshake-proven identity is `ident` -/
